@@ -106,7 +106,13 @@ def run_property(prop_id, tier="quick", seed=0, only=None, jobs=None, keep_going
         nstep = len({p["name"] for p in res.props if "loop_invariant_step" in p["name"] or "loop_step" in p["name"]})
         if proof.loop_contracts and nloops_with_contract and nstep == 0:
             verdict["undecided"].append("%s: loop contracts declared but no loop_invariant_step obligation present" % proof.name)
-        for f in res.failed:
+        failed = res.failed
+        if out.get("loops_without_contract"):
+            cut = [f for f in failed if ".unwind." in f["name"]]
+            failed = [f for f in failed if ".unwind." not in f["name"]]
+            if cut and not failed:
+                verdict["undecided"].append("%s: loop without a loop contract in %s (the code gained a loop); unwound 3 times, nothing failed in that prefix, the rest is not decided" % (proof.name, ", ".join(out["loops_without_contract"])))
+        for f in failed:
             verdict["violations"].append({"proof": proof.name, "obligation": f["name"], "description": f["description"],
                                           "file": f["file"], "line": f["line"], "level": proof.level,
                                           "property_level": obligation_matches(proof.property_level, f["name"])})
